@@ -140,6 +140,14 @@ func (ex *Exec) calleeEnv(st *State, sp *FuncSpec, fn *ssa.Function, sig *types.
 		if sig.Recv() != nil && len(fn.Params) > 0 && len(args) > 0 {
 			env.vars["recv"] = TV{args[0], fn.Params[0].Type()}
 		}
+		// the contract may still call a renamed parameter by the name the baseline knows (locals.go)
+		for old, p := range renamedParams(fn) {
+			for j, q := range fn.Params {
+				if q == p && j < len(args) {
+					env.vars[old] = TV{args[j], p.Type()}
+				}
+			}
+		}
 		return env
 	}
 	if sig.Recv() != nil || recvName != "" {
@@ -176,6 +184,11 @@ func (ex *Exec) funcEnv(st *State, fr *Frame) *SpecEnv {
 			env.vars[p.Name()] = TV{v, p.Type()}
 		}
 	}
+	for old, p := range renamedParams(fr.Fn) {
+		if v, ok := fr.Params[p.Name()]; ok {
+			env.vars[old] = TV{v, p.Type()}
+		}
+	}
 	for n, tv := range fr.Extra {
 		env.vars[n] = tv
 	}
@@ -206,6 +219,11 @@ func (ex *Exec) loopEnv(st *State, fr *Frame) *SpecEnv {
 			env.vars["old_"+p.Name()] = TV{v, p.Type()}
 		}
 	}
+	for old, p := range renamedParams(fr.Fn) {
+		if v, ok := fr.Params[p.Name()]; ok {
+			env.vars["old_"+old] = TV{v, p.Type()}
+		}
+	}
 	// several locals may share a name (two range loops: two "rangeindex" cells): take the one
 	// declared last before the current position, and for rangeindex the innermost enclosing loop's
 	var names []*ssa.Alloc
@@ -226,6 +244,25 @@ func (ex *Exec) loopEnv(st *State, fr *Frame) *SpecEnv {
 		if c := fr.Cells[al]; c != nil {
 			if v, ok := st.Locals[c]; ok {
 				env.vars["rangeindex"] = TV{v, c.Typ}
+			}
+		}
+	}
+	// a local the baseline knows under a name that is gone (see locals.go)
+	for old, a := range renamedLocals(fr.Fn) {
+		if _, bound := env.vars[old]; bound {
+			continue
+		}
+		if c := fr.Cells[a]; c != nil {
+			if v, ok := st.Locals[c]; ok {
+				env.vars[old] = TV{v, c.Typ}
+			}
+		} else if val, ok := fr.Regs[a]; ok && a.Heap {
+			if p, ok := val.(*PtrV); ok {
+				env.vars[old] = TV{ex.load(st, p), p.Elem}
+				if env.addrs == nil {
+					env.addrs = map[string]*PtrV{}
+				}
+				env.addrs[old] = p
 			}
 		}
 	}
